@@ -37,6 +37,11 @@ func vFailure(label string) error {
 	}
 }
 
+// vSliceErr is an error type that is not comparable (a slice of messages, as validators return)
+type vSliceErr []string
+
+func (e vSliceErr) Error() string { return "validation failed" }
+
 // vCustomErr is a custom-typed error (for errors.As checks).
 type vCustomErr struct{ code int }
 
